@@ -322,8 +322,9 @@ def window_sites(lark_root):
 
 class Scheduler:
     """strategy: {'kind': 'random', 'p': 0.05} | {'kind': 'pct', 'd': 2, 'est_steps': N} | {'kind': 'burst', 'p': 0.3, 'n': 400, 'p2': 0.01}
-                 | {'kind': 'window', 'targets': [k, ...], 'p2': 0.002}: the running task is PARKED (lowest priority: everybody else goes
-                   first, to completion if nothing else happens) at its k-th arrival at a lazy-initialisation window (window_sites)
+                 | {'kind': 'window', 'targets': [k, ...], 'offset': d, 'p2': 0.002}: the running task is PARKED (lowest priority: everybody
+                   else goes first, to completion if nothing else happens) d traced lines after its k-th arrival at a lazy-initialisation
+                   window (window_sites): d = 0 is the check-then-act window itself, d > 0 a point inside the initialiser
                  | {'kind': 'serial'} (no pre-emption: tasks run to completion in index order)"""
 
     DEFAULT_CAP = 3_000_000
@@ -361,6 +362,7 @@ class Scheduler:
         self._win_n = 0
         self._win_targets = frozenset(strategy.get('targets', ())) if self.kind == 'window' else frozenset()
         self.window_parks = 0
+        self._park_in = {}
 
     # -------------------------------------------------------------- set-up
     def spawn(self, ops, interrupts=None, step_caps=None):
@@ -473,9 +475,20 @@ class Scheduler:
                 return
             if kind == 'window':
                 hit = False
-                if frame is not None and (frame.f_code.co_filename[len(self.lark_root):], frame.f_lineno) in self._window_sites:
+                if self._park_in.get(task.idx) is not None:
+                    # the task passed its window `offset` lines ago: it is now somewhere INSIDE the initialiser it decided to run
+                    self._park_in[task.idx] -= 1
+                    if self._park_in[task.idx] <= 0:
+                        del self._park_in[task.idx]
+                        hit = True
+                elif frame is not None and (frame.f_code.co_filename[len(self.lark_root):], frame.f_lineno) in self._window_sites:
                     self._win_n += 1
-                    hit = self._win_n in self._win_targets
+                    if self._win_n in self._win_targets:
+                        off = self.strategy.get('offset', 0)
+                        if off > 0:
+                            self._park_in[task.idx] = off
+                        else:
+                            hit = True
                 if not hit and self.rng.random() >= self.strategy.get('p2', 0.002):
                     return
                 r = [t for t in self._runnable() if t is not task]
